@@ -204,6 +204,7 @@ func checkC02(c *Ctx) {
 	c02Blends(c)
 	c02Fold(c)
 	c02Alias(c)
+	c02LateBlend(c)
 	c02Cache(c)
 	c02Voxel(c)
 	c02Slice(c)
